@@ -93,5 +93,10 @@ func validateMirrorSettings(cfg tmmirror.MirrorConfig) error {
 		err = errors.Join(err, errors.New("no common message signature proof scheme set (use tmengine.WithCommonMessageSignatureProofScheme)"))
 	}
 
+	if cfg.Watchdog == nil {
+		// The mirror kernel registers itself with the watchdog when it starts.
+		err = errors.Join(err, errors.New("no watchdog set (use tmengine.WithWatchdog)"))
+	}
+
 	return err
 }
